@@ -126,7 +126,8 @@ Run == /\ st.status = "run"
 Report == /\ st.status \notin {"run", "reported"}
           /\ PrintT("RESULT " \o ToJson([case |-> Cases[st.c].name, status |-> st.status, tag |-> st.tag, why |-> st.why,
                                           nout |-> Len(st.out), steps |-> st.steps, marks |-> st.marks, hi |-> st.hi,
-                                          peak |-> st.peak, F |-> st.F, pc |-> st.pc, msteps |-> st.m.steps, cov |-> st.cov]))
+                                          peak |-> st.peak, F |-> st.F, pc |-> st.pc, msteps |-> st.m.steps, cov |-> st.cov,
+                                          res |-> IF st.result.t = "int" THEN st.result.w ELSE <<>>]))
           /\ st' = [st EXCEPT !.status = "reported"]
 Next == Run \/ Report
 Spec == Init /\ [][Next]_st
